@@ -135,20 +135,30 @@ Fixpoint visit (fuel : nat) (r : frule) (t : ftd) (ords : list (list nat)) (i : 
   end.
 
 Definition is_ntl (l : elabel) : bool := negb (el_term l).
-(** [labels.add(rule.lhs); labels.update(rule.rhs.nonterminals())] *)
+(** [labels.add(rule.lhs); labels.update(rule.rhs.edge_labels())] (as of /repo 211579c) *)
 Definition init_labels (r : frule) (labels : list elabel) : list elabel :=
+  map fe_lab (fr_edges r) ++ fr_lhs r :: labels.
+(** before 211579c: [labels.update(rule.rhs.nonterminals())] (finding F22) *)
+Definition init_labels_old (r : frule) (labels : list elabel) : list elabel :=
   filter is_ntl (map fe_lab (fr_edges r)) ++ fr_lhs r :: labels.
 
-(** [factorize_rule(rule, method, labels)] given the decomposition [t] that
-    [tree_decomposition(g, method)] returned: (newrules, labels afterwards) *)
-Definition factorize_rule_model (r : frule) (labels : list elabel) (t : ftd) (ords : list (list nat))
+(** the rest of [factorize_rule], from the label set [labels1] on *)
+Definition factorize_rule_from (r : frule) (labels1 : list elabel) (t : ftd) (ords : list (list nat))
   : result (list frule * list elabel) :=
   match find_root (fr_ext r) t 0 with
   | None => Err OtherErr
   | Some root =>
-    x <- visit (length t) r t ords root None (init_labels r labels, []) ;;
+    x <- visit (length t) r t ords root None (labels1, []) ;;
     Ok (snd (fst x), fst (fst x))
   end.
+(** [factorize_rule(rule, method, labels)] given the decomposition [t] that
+    [tree_decomposition(g, method)] returned: (newrules, labels afterwards) *)
+Definition factorize_rule_model (r : frule) (labels : list elabel) (t : ftd) (ords : list (list nat))
+  : result (list frule * list elabel) :=
+  factorize_rule_from r (init_labels r labels) t ords.
+Definition factorize_rule_old_model (r : frule) (labels : list elabel) (t : ftd) (ords : list (list nat))
+  : result (list frule * list elabel) :=
+  factorize_rule_from r (init_labels_old r labels) t ords.
 
 (** * HRG / FGG *)
 Record fhrg := { fh_nlabels : list nat; fh_elabels : list elabel; fh_start : elabel;
@@ -182,25 +192,39 @@ Definition hrg_new (start : elabel) : fhrg :=
 Definition rule_oracle := (ftd * list (list nat))%type.
 
 (** [factorize_hrg(g, method)]: [orc] gives, per rule in [all_rules()] order, the decomposition
-    returned by [tree_decomposition(., method)] and the observed orders *)
-Definition factorize_hrg_with (g : fhrg) (orc : list rule_oracle) : result fhrg :=
+    returned by [tree_decomposition(., method)] and the observed orders; [gnew0] is the new
+    grammar before the first rule is added *)
+Definition factorize_hrg_from (g gnew0 : fhrg) (orc : list rule_oracle) : result fhrg :=
   x <- mfold (fun (acc : fhrg * list elabel) (p : frule * rule_oracle) =>
                 y <- factorize_rule_model (fst p) (snd acc) (fst (snd p)) (snd (snd p)) ;;
                 gn <- mfold hrg_add_rule (fst y) (fst acc) ;;
                 Ok (gn, snd y))
-             (combine (fh_all_rules g) orc) (hrg_new (fh_start g), fh_elabels g) ;;
+             (combine (fh_all_rules g) orc) (gnew0, fh_elabels g) ;;
   Ok (fst x).
+(** as of /repo 833be06: [gnew = HRG(g.start)] with the label tables of [g] copied *)
+Definition factorize_hrg_with (g : fhrg) (orc : list rule_oracle) : result fhrg :=
+  factorize_hrg_from g {| fh_nlabels := fh_nlabels g; fh_elabels := fh_elabels g; fh_start := fh_start g; fh_rules := [] |} orc.
+(** before 833be06: the tables were rebuilt from the rules only (finding F20) *)
+Definition factorize_hrg_old_with (g : fhrg) (orc : list rule_oracle) : result fhrg :=
+  factorize_hrg_from g (hrg_new (fh_start g)) orc.
 (** methods: 0 = min_fill, 1 = quickbb, 2 = acb (as in Model/TreeDec.v) *)
 Definition factorize_hrg_model (m : nat) (g : fhrg) (orc : nat -> list rule_oracle) : result fhrg :=
   factorize_hrg_with g (orc m).
 
 Record ffgg := { ff_hrg : fhrg; ff_domains : list (nat * nat);       (* node label -> domain (size) *)
                  ff_factors : list (str * nat) }.                     (* label name -> factor (an id) *)
-(** [FGG.from_hrg] *)
+(** [FGG.from_hrg] (as of /repo 450bcaa): [FGG(hrg.start)], the label tables of [hrg] are copied,
+    then every rule is added *)
 Definition from_hrg_model (h : fhrg) : result fhrg :=
-  mfold hrg_add_rule (fh_all_rules h) (hrg_new (fh_start h)).
-(** [factorize_fgg(g, method)] AS CODED: [factorize_hrg(g)] is called without [method] (F7) *)
+  mfold hrg_add_rule (fh_all_rules h)
+        {| fh_nlabels := fh_nlabels h; fh_elabels := fh_elabels h; fh_start := fh_start h; fh_rules := [] |}.
+(** [factorize_fgg(g, method)] (as of /repo 207a206: [factorize_hrg(g, method=method)]) *)
 Definition factorize_fgg_model (m : nat) (g : ffgg) (orc : nat -> list rule_oracle) : result ffgg :=
+  h <- factorize_hrg_model m (ff_hrg g) orc ;;
+  h' <- from_hrg_model h ;;
+  Ok {| ff_hrg := h'; ff_domains := ff_domains g; ff_factors := ff_factors g |}.
+(** the code before 207a206: [factorize_hrg(g)] was called without [method] (finding F7) *)
+Definition factorize_fgg_old_model (m : nat) (g : ffgg) (orc : nat -> list rule_oracle) : result ffgg :=
   h <- factorize_hrg_model 0 (ff_hrg g) orc ;;
   h' <- from_hrg_model h ;;
   Ok {| ff_hrg := h'; ff_domains := ff_domains g; ff_factors := ff_factors g |}.
